@@ -570,3 +570,47 @@ func Unwrap(v ssa.Value) ssa.Value {
 		}
 	}
 }
+
+// Results returns the result values of a return, looking through the spill
+// go/ssa introduces in functions with defers (`*t0 = v; rundefers; return *t0`).
+func Results(ret *ssa.Return) []ssa.Value {
+	out := make([]ssa.Value, len(ret.Results))
+	for i, r := range ret.Results {
+		out[i] = r
+		u, ok := r.(*ssa.UnOp)
+		if !ok || u.Op != token.MUL {
+			continue
+		}
+		al, ok := u.X.(*ssa.Alloc)
+		if !ok {
+			continue
+		}
+		instrs := ret.Block().Instrs
+		for j := len(instrs) - 1; j >= 0; j-- {
+			if st, ok := instrs[j].(*ssa.Store); ok && st.Addr == al {
+				out[i] = st.Val
+				break
+			}
+		}
+	}
+	return out
+}
+
+// IsRecoverBlock reports the synthetic recover block of a function with defers.
+func IsRecoverBlock(b *ssa.BasicBlock) bool {
+	return b.Parent().Recover == b
+}
+
+// Returns lists the return instructions of fn, skipping the recover block.
+func Returns(fn *ssa.Function) []*ssa.Return {
+	var out []*ssa.Return
+	for _, b := range fn.Blocks {
+		if IsRecoverBlock(b) || len(b.Instrs) == 0 {
+			continue
+		}
+		if r, ok := b.Instrs[len(b.Instrs)-1].(*ssa.Return); ok {
+			out = append(out, r)
+		}
+	}
+	return out
+}
